@@ -52,6 +52,7 @@ def plan(tier, seed):
     maxlen = 4 if tier == 'thorough' else 3
 
     def gen():
+        yield {'s': ''}      # the empty text: a literal only (an xlsx cell cannot hold it)
         for s in strings(maxlen):
             yield {'s': s}
         for s in PAYLOADS:
@@ -92,7 +93,8 @@ def items_for(s, const_only=False):
     lit_ok = '"' not in s and not const_only
     f = {}
     pos = {}
-    cells = {'A@0': s, 'A@1': 'zz', 'B@0': 1, 'B@1': 2, 'C@0': 'x' + s + 'y'}
+    # the empty text exists as a literal only: an xlsx cell cannot hold it, the constant position gets a one-letter stand-in
+    cells = {'A@0': s if s != '' else 'k', 'A@1': 'zz', 'B@0': 1, 'B@1': 2, 'C@0': 'x' + s + 'y'}
 
     def add(col, p, text):
         f[col + '@0'] = text
@@ -200,6 +202,8 @@ def run_strings(cases, stats):
             s = allstr[k]
             res = D.eval_compiled(comp, item, None, stats, addrs=['A@0', 'C@0'] + list(item['f']))
             expect = {'A@0': s, 'C@0': 'x' + s + 'y'}
+            if s == '':
+                del expect['A@0']
             for a, p in pos.items():
                 if p == 'lit':
                     expect[a] = s
